@@ -70,6 +70,14 @@ impl EnvironmentMap {
         Self { map }
     }
 
+    /// Verification hook: an empty environment map.
+    #[cfg(feature = "verif-hooks")]
+    pub fn verif_empty() -> Self {
+        Self {
+            map: BTreeMap::new(),
+        }
+    }
+
     #[cfg(test)]
     pub(crate) fn empty() -> Self {
         Self {
